@@ -23,6 +23,8 @@ type Prov struct {
 	MaxDepth int
 	MaxAlts  int
 	CallArgs bool // include argument descriptions for calls
+	// InlinePure describes the result of a small side-effect-free module function by its body (see pureInline)
+	InlinePure bool
 }
 
 func (p *Prog) Prov() *Prov { return &Prov{p: p, MaxDepth: 7, MaxAlts: 24} }
@@ -355,6 +357,14 @@ func (pv *Prov) callDesc(v ssa.Value, idx int, depth int, seen map[ssa.Value]boo
 	if g := pv.trivialGetter(callee, cc.Args, idx, depth, seen); g != nil {
 		return g
 	}
+	if g := pv.selectsParam(callee, cc.Args, idx, depth, seen); g != nil {
+		return g
+	}
+	if pv.InlinePure {
+		if g := pv.pureInline(callee, cc.Args, idx, depth); g != nil {
+			return g
+		}
+	}
 	name := pv.funcName(callee)
 	if callee.Signature.Recv() != nil && len(cc.Args) > 0 {
 		recv := pv.desc(cc.Args[0], depth-1, seen)
@@ -595,4 +605,156 @@ func (pv *Prov) trivialGetter(fn *ssa.Function, args []ssa.Value, idx int, depth
 		return nil
 	}
 	return nil
+}
+
+// selectsParam: a small module function every return of which hands back one of its own parameters
+// (a "choose between the arguments" helper such as min/clamp): its result is described by the
+// corresponding arguments.
+func (pv *Prov) selectsParam(fn *ssa.Function, args []ssa.Value, idx int, depth int, seen map[ssa.Value]bool) map[string]bool {
+	if fn == nil || len(fn.Blocks) == 0 || len(fn.Blocks) > 12 || !pv.p.InModule(fn) || depth <= 0 {
+		return nil
+	}
+	params := map[int]bool{}
+	ok := true
+	var walk func(v ssa.Value, d int)
+	visited := map[ssa.Value]bool{}
+	walk = func(v ssa.Value, d int) {
+		if visited[v] || d > 6 {
+			return
+		}
+		visited[v] = true
+		switch x := v.(type) {
+		case *ssa.Parameter:
+			for k, p := range fn.Params {
+				if p == x {
+					params[k] = true
+					return
+				}
+			}
+			ok = false
+		case *ssa.Phi:
+			for _, e := range x.Edges {
+				walk(e, d+1)
+			}
+		default:
+			ok = false
+		}
+	}
+	n := 0
+	for _, b := range fn.Blocks {
+		if r, isRet := b.Instrs[len(b.Instrs)-1].(*ssa.Return); isRet {
+			if idx >= len(r.Results) {
+				return nil
+			}
+			n++
+			walk(r.Results[idx], 0)
+		}
+	}
+	if !ok || n == 0 || len(params) == 0 {
+		return nil
+	}
+	out := map[string]bool{}
+	for k := range params {
+		if k >= len(args) {
+			return nil
+		}
+		for s := range pv.desc(args[k], depth-1, seen) {
+			out[s] = true
+		}
+	}
+	return pv.cap(out)
+}
+
+// pureInline: a small side-effect-free module function (only loads, field selections, arithmetic,
+// comparisons, φ and returns — no calls except len/cap, no stores): its result is described by the
+// provenance of its return value with the callee's `recv` / `param#i` replaced by the arguments'
+// descriptions (only when each substituted argument has a single description).
+func (pv *Prov) pureInline(fn *ssa.Function, args []ssa.Value, idx int, depth int) map[string]bool {
+	if fn == nil || len(fn.Blocks) == 0 || len(fn.Blocks) > 12 || !pv.p.InModule(fn) || depth <= 1 {
+		return nil
+	}
+	var ret []*ssa.Return
+	for _, b := range fn.Blocks {
+		for _, in := range b.Instrs {
+			switch x := in.(type) {
+			case *ssa.FieldAddr, *ssa.Field, *ssa.UnOp, *ssa.BinOp, *ssa.Phi, *ssa.If, *ssa.Jump, *ssa.Convert, *ssa.ChangeType, *ssa.DebugRef, *ssa.IndexAddr, *ssa.Index:
+			case *ssa.Return:
+				ret = append(ret, x)
+			case *ssa.Call:
+				if bi, ok := x.Call.Value.(*ssa.Builtin); !ok || (bi.Name() != "len" && bi.Name() != "cap") {
+					return nil
+				}
+			default:
+				return nil
+			}
+		}
+	}
+	if len(ret) == 0 {
+		return nil
+	}
+	sub := map[string]string{}
+	off := 0
+	inner := &Prov{p: pv.p, MaxDepth: depth - 1, MaxAlts: pv.MaxAlts, InlinePure: true}
+	if fn.Signature.Recv() != nil {
+		off = 1
+		if len(args) == 0 {
+			return nil
+		}
+		d := setKeys(pv.desc(args[0], depth-1, map[ssa.Value]bool{}))
+		if len(d) != 1 {
+			return nil
+		}
+		sub["recv"] = d[0]
+	}
+	out := map[string]bool{}
+	for _, r := range ret {
+		if idx >= len(r.Results) {
+			return nil
+		}
+		for _, d := range inner.Desc(r.Results[idx]) {
+			if strings.Contains(d, "?deep") {
+				return nil
+			}
+			// substitute parameters
+			res := d
+			for i := len(args) - 1; i >= off; i-- {
+				tok := fmt.Sprintf("param#%d", i-off)
+				if !strings.Contains(res, tok) {
+					continue
+				}
+				ad := setKeys(pv.desc(args[i], depth-1, map[ssa.Value]bool{}))
+				if len(ad) != 1 {
+					return nil
+				}
+				res = strings.ReplaceAll(res, tok, "\x00"+ad[0]+"\x00")
+			}
+			if r, ok := sub["recv"]; ok {
+				res = replaceToken(res, "recv", r)
+			}
+			res = strings.ReplaceAll(res, "\x00", "")
+			out[res] = true
+		}
+	}
+	return pv.cap(out)
+}
+
+// replaceToken replaces the identifier tok (delimited by non-identifier characters) in s.
+func replaceToken(s, tok, by string) string {
+	var sb strings.Builder
+	isIdent := func(c byte) bool {
+		return c == '_' || c == '#' || (c >= '0' && c <= '9') || (c >= 'a' && c <= 'z') || (c >= 'A' && c <= 'Z')
+	}
+	for i := 0; i < len(s); {
+		if strings.HasPrefix(s[i:], tok) && (i == 0 || !isIdent(s[i-1])) && (i+len(tok) == len(s) || !isIdent(s[i+len(tok)])) && !strings.Contains(by, "\x00") {
+			// do not touch text inserted by a parameter substitution (between NUL markers)
+			if strings.Count(s[:i], "\x00")%2 == 0 {
+				sb.WriteString(by)
+				i += len(tok)
+				continue
+			}
+		}
+		sb.WriteByte(s[i])
+		i++
+	}
+	return sb.String()
 }
